@@ -35,11 +35,13 @@ type facts struct {
 	LitOps      [][2]string         `json:"lit_ops"`      // visitor method -> Operation type
 	Coercions   [][2]string         `json:"coercions"`    // helper -> class
 	Funcs       [][2]string         `json:"funcs"`        // hand-written function -> fingerprint of its normalised body
-	PkgVars     []string            `json:"pkg_vars"`     // package-level variables of hand-written files
+	PkgVars     []string            `json:"pkg_vars"`     // package-level variables of hand-written files that may be written (or whose referent may be)
+	PkgReadonly []string            `json:"pkg_readonly"` // package-level variables proved read-only by pkgVarAnalysis
 	GoStmts     int                 `json:"go_stmts"`
 	SyncUses    []string            `json:"sync_uses"`
 	Observers   []string            `json:"observers"` // types named in assertions / type switches of hand-written files
 	ReflectUses []string            `json:"reflect_uses"`
+	Unreachable []string            `json:"unreachable"` // hand-written functions no function of the transcription-time API reaches (not counted for observers)
 	WriteSites  []string            `json:"write_sites"` // index assignments / delete / in hand-written files
 }
 
@@ -84,6 +86,273 @@ func leanStrs(ss []string) string {
 		parts = append(parts, leanStr(s))
 	}
 	return "[" + strings.Join(parts, ", ") + "]"
+}
+
+// alphaNormalise renames, in place, the receiver, the parameters, the named results and every local variable of fd to
+// canonical names (recv, p0.., r0.., v0.. in order of first declaration), so that a pure renaming of identifiers does
+// not change the normalised body the ties and the frozen transcription texts are compared with.
+func alphaNormalise(fd *ast.FuncDecl) {
+	names := map[*ast.Object]string{}
+	if fd.Recv != nil {
+		for _, f := range fd.Recv.List {
+			for _, n := range f.Names {
+				if n.Obj != nil {
+					names[n.Obj] = "recv"
+				}
+			}
+		}
+	}
+	k := 0
+	if fd.Type.Params != nil {
+		for _, f := range fd.Type.Params.List {
+			for _, n := range f.Names {
+				if n.Obj != nil && n.Name != "_" {
+					names[n.Obj] = fmt.Sprintf("p%d", k)
+				}
+				k++
+			}
+		}
+	}
+	k = 0
+	if fd.Type.Results != nil {
+		for _, f := range fd.Type.Results.List {
+			for _, n := range f.Names {
+				if n.Obj != nil && n.Name != "_" {
+					names[n.Obj] = fmt.Sprintf("r%d", k)
+				}
+				k++
+			}
+		}
+	}
+	if fd.Body == nil {
+		return
+	}
+	lo, hi := fd.Body.Pos(), fd.Body.End()
+	v := 0
+	var idents []*ast.Ident
+	ast.Inspect(fd, func(n ast.Node) bool {
+		if id, ok := n.(*ast.Ident); ok {
+			idents = append(idents, id)
+		}
+		return true
+	})
+	orig := map[*ast.Object]string{}
+	for _, id := range idents {
+		o := id.Obj
+		if o == nil || o.Kind != ast.Var || id.Name == "_" {
+			continue
+		}
+		if _, done := names[o]; done {
+			continue
+		}
+		if o.Pos() < lo || o.Pos() >= hi {
+			continue // declared outside this function body (package level)
+		}
+		names[o] = fmt.Sprintf("v%d", v)
+		orig[o] = id.Name
+		v++
+	}
+	for _, id := range idents {
+		if id.Obj != nil {
+			if nn, ok := names[id.Obj]; ok {
+				id.Name = nn
+			}
+		}
+	}
+	// the binding occurrence of `switch x := y.(type)` carries no Object: give it the name its uses received
+	ast.Inspect(fd.Body, func(n ast.Node) bool {
+		ts, ok := n.(*ast.TypeSwitchStmt)
+		if !ok {
+			return true
+		}
+		as, ok := ts.Assign.(*ast.AssignStmt)
+		if !ok || len(as.Lhs) != 1 {
+			return true
+		}
+		bind, ok := as.Lhs[0].(*ast.Ident)
+		if !ok || bind.Obj != nil {
+			return true
+		}
+		nn := "unused"
+		for o, name := range names {
+			if orig[o] == bind.Name && o.Pos() >= ts.Pos() && o.Pos() < ts.End() {
+				nn = name
+			}
+		}
+		bind.Name = nn
+		return true
+	})
+}
+
+// pkgVarAnalysis returns, for every package-level variable "dir/name" of the given files, whether all of its uses are
+// harmless reads. Conservative: anything not recognised as a harmless read makes the variable (potentially) mutable.
+func pkgVarAnalysis(files []*ast.File, dirs []string) map[string]bool {
+	type vinfo struct {
+		refLike bool // initialised by a composite literal / make / & : the value refers to shared storage
+		call    bool // initialised by some other call: nothing known about the value
+		immut   bool // initialised by errors.New / fmt.Errorf: an immutable value; only an assignment to the variable changes it
+	}
+	vars := map[string]*vinfo{}
+	ro := map[string]bool{}
+	for i, f := range files {
+		for _, d := range f.Decls {
+			gd, ok := d.(*ast.GenDecl)
+			if !ok || gd.Tok != token.VAR {
+				continue
+			}
+			for _, sp := range gd.Specs {
+				vs := sp.(*ast.ValueSpec)
+				for k, nm := range vs.Names {
+					vi := &vinfo{}
+					if k < len(vs.Values) {
+						switch x := vs.Values[k].(type) {
+						case *ast.CompositeLit:
+							vi.refLike = true
+						case *ast.UnaryExpr:
+							vi.refLike = true
+						case *ast.CallExpr:
+							if id, ok := x.Fun.(*ast.Ident); ok && (id.Name == "make" || id.Name == "new") {
+								vi.refLike = true
+							} else {
+								vi.call = true
+								if se, ok := x.Fun.(*ast.SelectorExpr); ok {
+									if pk, ok := se.X.(*ast.Ident); ok && ((pk.Name == "errors" && se.Sel.Name == "New") || (pk.Name == "fmt" && se.Sel.Name == "Errorf")) {
+										vi.immut = true
+									}
+								}
+							}
+						case *ast.BasicLit:
+						default:
+							vi.refLike = true
+						}
+					} else {
+						vi.refLike = true // declared without a value: written somewhere, or useless
+					}
+					vars[dirs[i]+"/"+nm.Name] = vi
+					ro[dirs[i]+"/"+nm.Name] = true
+				}
+			}
+		}
+	}
+	for i, f := range files {
+		var stack []ast.Node
+		ast.Inspect(f, func(n ast.Node) bool {
+			if n == nil {
+				stack = stack[:len(stack)-1]
+				return true
+			}
+			stack = append(stack, n)
+			id, ok := n.(*ast.Ident)
+			if !ok {
+				return true
+			}
+			key := dirs[i] + "/" + id.Name
+			vi, isVar := vars[key]
+			if !isVar {
+				return true
+			}
+			if id.Obj != nil && id.Obj.Kind != ast.Var {
+				return true
+			}
+			if id.Obj != nil {
+				// resolved within this file: must be the package-level declaration, not a local of the same name
+				if vs, ok := id.Obj.Decl.(*ast.ValueSpec); !ok || len(stack) < 2 {
+					_ = vs
+					return true
+				} else {
+					top := false
+					for _, d := range f.Decls {
+						if gd, ok := d.(*ast.GenDecl); ok {
+							for _, sp := range gd.Specs {
+								if sp == ast.Spec(vs) {
+									top = true
+								}
+							}
+						}
+					}
+					if !top {
+						return true
+					}
+				}
+			}
+			parent := stack[len(stack)-2]
+			var grand ast.Node
+			if len(stack) >= 3 {
+				grand = stack[len(stack)-3]
+			}
+			harmless := false
+			if vi.immut {
+				harmless = true
+				switch p := parent.(type) {
+				case *ast.AssignStmt:
+					for _, l := range p.Lhs {
+						if l == ast.Expr(id) {
+							harmless = false
+						}
+					}
+				case *ast.IncDecStmt:
+					harmless = false
+				case *ast.UnaryExpr:
+					harmless = p.Op != token.AND
+				}
+				if !harmless {
+					ro[key] = false
+				}
+				return true
+			}
+			switch p := parent.(type) {
+			case *ast.ValueSpec:
+				for _, nm := range p.Names {
+					if nm == id {
+						harmless = true // the declaration itself
+					}
+				}
+			case *ast.BinaryExpr:
+				harmless = p.Op == token.EQL || p.Op == token.NEQ
+			case *ast.CaseClause:
+				harmless = true // `case ErrX:` of an expression switch is a comparison
+			case *ast.ReturnStmt:
+				harmless = !vi.refLike
+			case *ast.RangeStmt:
+				harmless = p.X == ast.Expr(id) && vi.refLike
+			case *ast.CallExpr:
+				if fn, ok := p.Fun.(*ast.Ident); ok && (fn.Name == "len" || fn.Name == "cap") {
+					harmless = true
+				}
+			case *ast.IndexExpr:
+				if p.X == ast.Expr(id) {
+					harmless = true
+					switch g := grand.(type) {
+					case *ast.AssignStmt:
+						for _, l := range g.Lhs {
+							if l == ast.Expr(p) {
+								harmless = false
+							}
+						}
+					case *ast.IncDecStmt:
+						harmless = false
+					case *ast.UnaryExpr:
+						harmless = g.Op != token.AND
+					case *ast.CallExpr, *ast.SelectorExpr, *ast.IndexExpr, *ast.SliceExpr:
+						// an element handed on (method call on it, further indexing, argument): elements of func or
+						// scalar type are fine, anything else is not known – only direct calls of a func element pass
+						if c, ok := g.(*ast.CallExpr); ok && c.Fun == ast.Expr(p) {
+							harmless = true
+						} else {
+							harmless = false
+						}
+					}
+				} else {
+					harmless = !vi.refLike // used as an index value
+				}
+			}
+			if !harmless {
+				ro[key] = false
+			}
+			return true
+		})
+	}
+	return ro
 }
 
 func main() {
@@ -239,6 +508,8 @@ func main() {
 	opTypes := []string{"NullOperation", "BoolOperation", "IntOperation", "FloatOperation", "StringOperation", "VersionOperation"}
 	methods := []string{"EQ", "NE", "GT", "LT", "GE", "LE", "CO", "SW", "EW", "IN"}
 	bodies := map[string]string{}
+	decls := map[string]*ast.FuncDecl{}
+	declFile := map[string]string{}
 	embeds := map[string][]string{}
 	for _, gf := range files {
 		if !gf.hand {
@@ -260,9 +531,12 @@ func main() {
 					key = strings.TrimPrefix(t, "*") + "." + fd.Name.Name
 				}
 				if fd.Body != nil {
+					alphaNormalise(fd)
 					b := render(fd.Body)
 					b = strings.TrimSuffix(strings.TrimPrefix(b, "{ "), " }")
 					bodies[key] = b
+					decls[key] = fd
+					declFile[key] = filepath.Base(filepath.Dir(gf.path)) + "/" + gf.name
 					f.Funcs = append(f.Funcs, [2]string{key, fp(b)})
 				}
 			case *ast.GenDecl:
@@ -299,25 +573,32 @@ func main() {
 			fmt.Printf("%s\t%s\n", k, bodies[k])
 		}
 	}
-	relRe := regexp.MustCompile(`^(if _, ok := left\.\(float64\); ok \{ return \(&FloatOperation\{\}\)\.(\w+)\(left, right\) \} )?(\w+), (\w+), err := \w+\.get\(left, right\) if err != nil \{ return false, (err|nil) \} return (.+), nil$`)
+	relRe := regexp.MustCompile(`^(if _, (\w+) := p0\.\(float64\); (\w+) \{ return \(&FloatOperation\{\}\)\.(\w+)\(p0, p1\) \} )?(\w+), (\w+), (\w+) := recv\.get\(p0, p1\) if (\w+) != nil \{ return false, (\w+) \} return (.+), nil$`)
 	classify := func(typ, m, b string) string {
 		switch b {
 		case "return false, ErrInvalidOperation":
 			return "invalid"
-		case "return left == nil, nil":
+		case "return p0 == nil, nil":
 			return "isnil"
-		case "return left != nil, nil":
+		case "return p0 != nil, nil":
 			return "notnil"
 		}
 		if mm := relRe.FindStringSubmatch(b); mm != nil {
 			pre := ""
 			if mm[1] != "" {
-				if mm[2] != m {
+				if mm[4] != m || mm[2] != mm[3] {
 					return "unrecognised"
 				}
 				pre = "fdel;"
 			}
-			l, r, mode, expr := mm[3], mm[4], mm[5], mm[6]
+			l, r, errv, expr := mm[5], mm[6], mm[7], mm[10]
+			if mm[8] != errv || (mm[9] != errv && mm[9] != "nil") {
+				return "unrecognised"
+			}
+			mode := "err"
+			if mm[9] == "nil" {
+				mode = "nil"
+			}
 			rel := ""
 			for _, op := range []string{"==", "!=", ">=", "<=", ">", "<"} {
 				if expr == l+" "+op+" "+r {
@@ -377,13 +658,37 @@ func main() {
 	}
 
 	// dispatch and literal visitors
-	caseRe := regexp.MustCompile(`case JsonQueryParser(\w+): apply = currentOp\.(\w+)`)
+	// (a switch that is not of the transcribed form – one assignment `fn = op.<METHOD>` per token constant – yields the
+	// single row ("unrecognised", ""): the tie then claims nothing and the correspondence alone carries the dispatch)
+	swRe := regexp.MustCompile(`switch p0\.op\.GetTokenType\(\) \{ (.*?) default: `)
+	caseRe := regexp.MustCompile(`^JsonQueryParser(\w+): (\w+) = (\w+)\.(\w+)$`)
 	if b, ok := bodies["JsonQueryVisitorImpl.VisitCompareExp"]; ok {
-		for _, mm := range caseRe.FindAllStringSubmatch(b, -1) {
-			f.Dispatch = append(f.Dispatch, [2]string{mm[1], mm[2]})
+		recognised := false
+		if sm := swRe.FindStringSubmatch(b); sm != nil {
+			recognised = true
+			var fnv, opv string
+			for _, cl := range strings.Split(sm[1], "case ") {
+				cl = strings.TrimSpace(cl)
+				if cl == "" {
+					continue
+				}
+				mm := caseRe.FindStringSubmatch(cl)
+				if mm == nil || (fnv != "" && (mm[2] != fnv || mm[3] != opv)) {
+					recognised = false
+					break
+				}
+				fnv, opv = mm[2], mm[3]
+				f.Dispatch = append(f.Dispatch, [2]string{mm[1], mm[4]})
+			}
+			if recognised && !strings.Contains(b, opv+" := recv.currentOperation") {
+				recognised = false
+			}
+		}
+		if !recognised {
+			f.Dispatch = [][2]string{{"unrecognised", ""}}
 		}
 	}
-	curRe := regexp.MustCompile(`j\.currentOperation = &(\w+)\{\}`)
+	curRe := regexp.MustCompile(`recv\.currentOperation = &(\w+)\{\}`)
 	var vnames []string
 	for k := range bodies {
 		if strings.HasPrefix(k, "JsonQueryVisitorImpl.Visit") {
@@ -397,32 +702,111 @@ func main() {
 		}
 	}
 
+	// package-level variables: a variable whose every use in hand-written code is a read that cannot change it or what it
+	// refers to (comparison, return of a non-reference value, index read / range / len of a literal table) is not state
+	var hf []*ast.File
+	var hd []string
+	for _, gf := range files {
+		if gf.hand {
+			hf = append(hf, gf.file)
+			hd = append(hd, filepath.Base(filepath.Dir(gf.path)))
+		}
+	}
+	roVars := pkgVarAnalysis(hf, hd)
+	var mutable []string
+	for _, v := range f.PkgVars {
+		if roVars[v] {
+			f.PkgReadonly = append(f.PkgReadonly, v)
+		} else {
+			mutable = append(mutable, v)
+		}
+	}
+	f.PkgVars = mutable
+	if f.PkgVars == nil {
+		f.PkgVars = []string{}
+	}
+	if f.PkgReadonly == nil {
+		f.PkgReadonly = []string{}
+	}
+	sort.Strings(f.PkgReadonly)
+
 	// inventory
-	obs := map[string]bool{}
-	refl := map[string]bool{}
-	syncu := map[string]bool{}
+	// reachability (by name, over-approximate): a function counts for the observer set only if one of the functions that
+	// existed when the model was transcribed (apiRoots), or a package-level initialiser, can reach it
+	reach := map[string]bool{}
+	var work []string
+	mark := func(k string) {
+		if _, ok := decls[k]; ok && !reach[k] {
+			reach[k] = true
+			work = append(work, k)
+		}
+	}
+	refs := func(n ast.Node) {
+		ast.Inspect(n, func(m ast.Node) bool {
+			switch x := m.(type) {
+			case *ast.Ident:
+				mark(x.Name)
+				mark("root." + x.Name)
+			case *ast.SelectorExpr:
+				for k := range decls {
+					if strings.HasSuffix(k, "."+x.Sel.Name) {
+						mark(k)
+					}
+				}
+			}
+			return true
+		})
+	}
+	for _, k := range apiRoots {
+		mark(k)
+	}
 	for _, gf := range files {
 		if !gf.hand {
 			continue
 		}
-		rel := filepath.Base(filepath.Dir(gf.path)) + "/" + gf.name
-		ast.Inspect(gf.file, func(n ast.Node) bool {
+		for _, d := range gf.file.Decls {
+			if gd, ok := d.(*ast.GenDecl); ok && gd.Tok == token.VAR {
+				refs(gd)
+			}
+		}
+	}
+	for len(work) > 0 {
+		k := work[len(work)-1]
+		work = work[:len(work)-1]
+		refs(decls[k].Body)
+	}
+	for k := range decls {
+		if !reach[k] {
+			f.Unreachable = append(f.Unreachable, k)
+		}
+	}
+	sort.Strings(f.Unreachable)
+	if f.Unreachable == nil {
+		f.Unreachable = []string{}
+	}
+	obs := map[string]bool{}
+	refl := map[string]bool{}
+	syncu := map[string]bool{}
+	inventory := func(rel string, root ast.Node, observers bool) {
+		ast.Inspect(root, func(n ast.Node) bool {
 			switch x := n.(type) {
 			case *ast.GoStmt:
 				f.GoStmts++
 			case *ast.TypeAssertExpr:
-				if x.Type != nil {
+				if x.Type != nil && observers {
 					obs[render(x.Type)] = true
 				}
 			case *ast.TypeSwitchStmt:
-				for _, c := range x.Body.List {
-					for _, e := range c.(*ast.CaseClause).List {
-						obs[render(e)] = true
+				if observers {
+					for _, c := range x.Body.List {
+						for _, e := range c.(*ast.CaseClause).List {
+							obs[render(e)] = true
+						}
 					}
 				}
 			case *ast.SelectorExpr:
 				if id, ok := x.X.(*ast.Ident); ok {
-					if id.Name == "reflect" {
+					if id.Name == "reflect" && observers {
 						refl[rel+":"+x.Sel.Name] = true
 					}
 					if id.Name == "sync" || id.Name == "atomic" {
@@ -442,6 +826,25 @@ func main() {
 			}
 			return true
 		})
+	}
+	for _, gf := range files {
+		if !gf.hand {
+			continue
+		}
+		rel := filepath.Base(filepath.Dir(gf.path)) + "/" + gf.name
+		for _, d := range gf.file.Decls {
+			if fd, ok := d.(*ast.FuncDecl); ok {
+				key := ""
+				for k, v := range decls {
+					if v == fd {
+						key = k
+					}
+				}
+				inventory(rel, fd, key == "" || reach[key])
+			} else {
+				inventory(rel, d, true)
+			}
+		}
 	}
 	for k := range obs {
 		f.Observers = append(f.Observers, k)
